@@ -367,6 +367,22 @@ try:
                 pass
             buf = type("B", (), {"getvalue": staticmethod(lambda: "x" * Broken.attempts)})()
             raise Boom()
+        elif mode in ("tebd-threads", "tebd-threads-fail"):
+            # PT-TEBD with the documented backend option 'multithread': worker threads belong to the call, not to the object
+            chain = oqupy.SystemChain([2, 2, 2])
+            for i in range(3): chain.add_site_hamiltonian(i, 0.5 * oqupy.operators.sigma("z"))
+            for i in range(2): chain.add_nn_hamiltonian(i, 0.4 * oqupy.operators.sigma("x"), oqupy.operators.sigma("x"))
+            spt = oqupy.process_tensor.SimpleProcessTensor(2, dt=0.1)
+            for k in range(2): spt.set_mpo_tensor(k, np.ones((1, 1, 4), dtype=complex))
+            for k in range(3): spt.set_cap_tensor(k, np.ones(1, dtype=complex))
+            KEEP = oqupy.PtTebd(oqupy.AugmentedMPS([rho, rho, rho]), chain, [spt, None, None], oqupy.PtTebdParameters(dt=0.1, order=2, epsrel=1e-6),
+                                backend_config={"parallel": "multithread"})
+            try:
+                # the process tensor covers two steps: asking for four fails inside the third step
+                KEEP.compute(2 if mode == "tebd-threads" else 4, progress_type="bar")
+            except IndexError:
+                pass
+            raise Boom()
         elif mode == "stress":
             import oqupy.util as u, random
             real = threading.Timer
@@ -509,7 +525,7 @@ def run(chk):
         outil.PROGRESS_DICT.pop("rec", None)
 
     # ---- (iv) runtime: real Timer threads in a child interpreter ---------------------------
-    for mode in ["tempo", "dynamics", "brokenstream"] + ["stress"] * (3 if thorough else 1):
+    for mode in ["tempo", "dynamics", "brokenstream", "tebd-threads", "tebd-threads-fail"] + ["stress"] * (3 if thorough else 1):
         alive, grew, err = run_child(mode, chk.seed)
         chk.search_cases += 1
         info = {"kind": "runtime", "mode": mode, "threads_alive": alive, "output_grew": grew}
@@ -518,7 +534,8 @@ def run(chk):
             chk.disagree("runtime harness", f"{mode}: child failed: {err}")
         elif alive or grew:
             key = {"tempo": "thread-left:Tempo.compute", "dynamics": "exit-skipped:compute_dynamics", "stress": "timer-race",
-                   "brokenstream": "thread-left:failing-output-stream"}[mode]
+                   "brokenstream": "thread-left:failing-output-stream", "tebd-threads": "thread-left:PtTebd-multithread",
+                   "tebd-threads-fail": "thread-left:PtTebd-multithread"}[mode]
             chk.fail(key, f"{mode}: {alive} thread(s) still alive after the call returned/raised; output grew by {grew} bytes afterwards", info)
 
     vals, errs = run_cases("C19", HEADER, exprs, chunk=400)
